@@ -8,6 +8,7 @@
 -/
 import Oracle.Proto
 import GoluaVerif.Spec.Num
+import GoluaVerif.Spec.Numeral
 namespace Oracle.C02
 open GoluaVerif GoluaVerif.Spec Oracle
 
@@ -133,12 +134,40 @@ def un (op : String) (x : V) : String :=
     | _ => "?"
   | none => "?"
 
+def hasDotDot : List UInt8 → Bool
+  | 46 :: 46 :: _ => true
+  | _ :: r => hasDotDot r
+  | [] => false
+
+/-- numeral strings (Spec.Numeral): `tonumberS s<hex>` = tonumber(s); `literal s<hex>` = value of the
+    chunk `return <s>` when s is exactly one numeral token (`E` when the token is malformed, `?` when
+    s is not a single numeral token); `strarithS s<hex>` = `s + 0` -/
+def strOp (op : String) (s : ByteArray) : String :=
+  let bs := s.toList
+  match op with
+  | "tonumberS" => match Numeral.str2number bs with
+    | some n => (numV n).show
+    | none => "n"
+  | "literal" => match Numeral.literal bs with
+    | .value n => (numV n).show
+    | .malformed =>
+      -- llex.c swallows `..` into a malformed numeral (`0...0`, `.9..0`); the manual does not say how far a
+      -- malformed numeral extends, and read as `0.` `..` `0` the chunk is valid: not decided here
+      if hasDotDot bs then "?" else "E"
+    | .notOneToken => "?"
+  | "strarithS" => match Numeral.str2number bs with
+    | some (.int n) => (V.int n).show
+    | some (.flt f) => (fltV (toFloat (.flt f) + 0.0)).show
+    | none => "E"
+  | _ => "?"
+
 def handle (line : String) : String :=
   match line.splitOn " " with
   | [op, x, y, "=", _] => match V.parse x, V.parse y with
     | some a, some b => bin op a b
     | _, _ => "bad-line"
   | [op, x, "=", _] => match V.parse x with
+    | some (.str s) => strOp op s
     | some a => un op a
     | none => "bad-line"
   | _ => "bad-line"
